@@ -460,6 +460,21 @@ def run_surrogate(ctx, res, seed):
     for o in ('y0', 'y2'):
         if not np.array_equal(np.asarray(base[o]), np.asarray(ov[o])):
             res.failures.append({'kind': 'override-affects-independent-output', 'input': {'seed': seed, 'override': 'c1', 'output': o}})
+    # the same composition when the per-index terms of every component are evaluated through an executor whose tasks complete in
+    # reverse order (System.predict hands `executor` down to Component.predict)
+    from harness.c15 import ScheduledExecutor
+    ex = ScheduledExecutor(lambda n: list(reversed(range(n))))
+    try:
+        yex = system.predict(xs, executor=ex)
+    finally:
+        ex.shutdown()
+    for o in base:
+        a_, b_ = np.asarray(base[o], dtype=float), np.asarray(yex[o], dtype=float)
+        if a_.shape != b_.shape or not np.allclose(a_, b_, rtol=1e-10, atol=1e-12, equal_nan=True):
+            res.failures.append({'kind': 'system-predict-through-an-executor-differs-from-the-composition',
+                                 'input': {'seed': seed, 'output': o, 'executor': 'reverse completion order'},
+                                 'observed': b_.reshape(-1)[:5].tolist(), 'expected': a_.reshape(-1)[:5].tolist()})
+    res.hit('prediction-through-executor')
     res.hit('surrogate-less-' + ('last' if nosurr == 'c3' else 'middle'))
     res.case(('surrogate', seed), True, {'system': 'c0->(c1,c2)->c3 diamond', 'seed': seed, 'listing': listing, 'no_surrogate': nosurr,
                                          'steps': len(system.train_history)})
